@@ -1,4 +1,5 @@
 import NavisModel.Props.C01
+import NavisModel.Props.C05
 import NavisModel.Props.C09
 import NavisModel.Props.C10
 import NavisModel.Props.C20
